@@ -330,6 +330,21 @@ def _json_structure_faults(tv0: TokenView, other_algs):
             return True
         yield mk("dup_entry", "signatures[%d] duplicated" % i, dup_one)
 
+        for copies in (15, 16, 17, 40):
+            def pad_then_forge(tv, i=i, copies=copies):
+                # many copies of one good entry, then one whose signature is broken: however long the list, every entry counts
+                if not general:
+                    return False
+                good = tv.obj["signatures"][i]
+                bad = copy.deepcopy(good)
+                sig = bad.get("signature")
+                if not isinstance(sig, str) or len(sig) < 4:
+                    return False
+                bad["signature"] = sig[:-2] + ("AA" if not sig.endswith("AA") else "BB")
+                tv.obj["signatures"] = [copy.deepcopy(good) for _ in range(copies)] + [bad]
+                return True
+            yield mk("pad_then_forge", "signatures[%d] repeated %d times, then an entry with a broken signature" % (i, copies), pad_then_forge)
+
         def blank(tv, i=i):
             tv.entries()[i]["signature"] = ""
             return True
